@@ -83,7 +83,7 @@ def run(ctx):
     ctx.extra["heavy_behaviours"] = {"enumerated": len(heavy), "replayed": len([b for b in beh if b.get("heavy")])}
     ctx.extra["enumerated_total"] = total
     ctx.exhaustive = len(heavy) <= nheavy
-    results = ctx.replay("replay-memory", beh, timeout=3400)
+    results = ctx.replay("replay-memory", beh, timeout=3400 if q else 9000)
     for b, r in zip(beh, results):
         for f in r.get("fails", []):
             ctx.fail(f["key"], f["msg"], replay=b)
